@@ -140,6 +140,8 @@ def default_ser(text, t):
         if c in ('int', 'size_t'):
             return str(int(text))
         if c == 'double':
+            if re.match(r'^[\d\.\s\+\-\*\(\)eE]+$', text):
+                return fmt_double(float(eval(text, {'__builtins__': {}})))
             return fmt_double(float(text))
         if c == 'bool':
             return {'true': 'true', 'false': 'false'}[text]
